@@ -199,7 +199,30 @@ class ND:
             return Fn(model=lambda ex, st, a, k: self.squeeze(ex, st, a[0] if a else k.get("dim")), name=name)
         if name == "unsqueeze":
             return Fn(model=lambda ex, st, a, k: self.unsqueeze(a[0]), name=name)
+        if name == "sum":
+            return Fn(model=lambda ex, st, a, k: self.sum(k.get("dim", a[0] if a else None)), name=name)
+        if name == "device":
+            from pyvc.values import Opaque
+            return Opaque("device")
         raise Undecided(f"tensor attribute {name}")
+
+    def sum(self, d):
+        """sum over one concrete dimension (expanded)"""
+        n = len(self.shape)
+        if d is None or not isinstance(d, int) or not (-n <= d < n):
+            raise Undecided("sum over all / unknown dimensions")
+        d %= n
+        c, b = cp(self.shape[d])
+        if b is not None:
+            raise Undecided("sum over a symbolic dimension")
+        from .tensors import toreal
+
+        def at(idx):
+            tot = z3.RealVal(0)
+            for j in range(c):
+                tot = tot + toreal(self.at(list(idx[:d]) + [z3.IntVal(j)] + list(idx[d:])))
+            return tot
+        return self.with_(self.shape[:d] + self.shape[d + 1:], at)
 
     def unsqueeze(self, d):
         n = len(self.shape) + 1
@@ -427,6 +450,85 @@ def cat(ex, st, a, k):
     return ND([bounds[-1]] + sh[1:], at, "cat", False)
 
 
+def unbind(ex, st, a, k):
+    x = a[0]
+    d = k.get("dim", a[1] if len(a) > 1 else 0)
+    n = len(x.shape)
+    d %= n
+    c, b = cp(x.shape[d])
+    if b is not None:
+        raise Undecided("unbind along a symbolic dimension")
+    return tuple(x.with_(x.shape[:d] + x.shape[d + 1:], (lambda idx, j=j: x.at(list(idx[:d]) + [z3.IntVal(j)] + list(idx[d:])))) for j in range(c))
+
+
+def split(ex, st, a, k):
+    x, sizes = a[0], a[1]
+    d = k.get("dim", a[2] if len(a) > 2 else 0)
+    n = len(x.shape)
+    d %= n
+    c, b = cp(x.shape[d])
+    if b is not None:
+        raise Undecided("split along a symbolic dimension")
+    if isinstance(sizes, int):
+        sizes = [sizes] * (c // sizes) + ([c % sizes] if c % sizes else [])
+    sizes = [int(z) for z in sizes]
+    if sum(sizes) != c:
+        raise PyRaise("RuntimeError")
+    out, off = [], 0
+    for sz in sizes:
+        out.append(x.with_(x.shape[:d] + [sz] + x.shape[d + 1:], (lambda idx, off=off: x.at(list(idx[:d]) + [z3ify(idx[d]) + off] + list(idx[d + 1:])))))
+        off += sz
+    return tuple(out)
+
+
+def cat_any(ex, st, a, k):
+    xs = _nds(a[0])
+    d = k.get("dim", a[1] if len(a) > 1 else k.get("axis", 0))
+    n = len(xs[0].shape)
+    if not isinstance(d, int) or not (-n <= d < n):
+        raise PyRaise("IndexError")
+    d %= n
+    if d == 0:
+        return cat(ex, st, a, dict(k, dim=0))
+    sizes = []
+    for x in xs:
+        if len(x.shape) != n or not all(same_dim(p, q) for i, (p, q) in enumerate(zip(x.shape, xs[0].shape)) if i != d):
+            raise PyRaise("RuntimeError")
+        c, b = cp(x.shape[d])
+        if b is not None:
+            raise Undecided("cat along a symbolic inner dimension")
+        sizes.append(c)
+    offs = [sum(sizes[:i]) for i in range(len(xs) + 1)]
+
+    def at(idx):
+        j = z3ify(idx[d])
+        out = xs[-1].at(list(idx[:d]) + [j - offs[-2]] + list(idx[d + 1:]))
+        for i in range(len(xs) - 2, -1, -1):
+            out = z3.If(j < offs[i + 1], xs[i].at(list(idx[:d]) + [j - offs[i]] + list(idx[d + 1:])), out)
+        return out
+    return ND(xs[0].shape[:d] + [offs[-1]] + xs[0].shape[d + 1:], at, "cat", False)
+
+
+def where(ex, st, a, k):
+    c, x, y = a
+    if not isinstance(c, ND):
+        raise Undecided("torch.where on a non-tensor condition")
+    from .tensors import toreal
+
+    def el(v, idx):
+        return toreal(v.at(idx)) if isinstance(v, ND) else toreal(v)
+    for v in (x, y):
+        if isinstance(v, ND) and not (len(v.shape) == len(c.shape) and all(same_dim(p, q) for p, q in zip(v.shape, c.shape))):
+            raise Undecided("torch.where with broadcasting")
+    return c.with_(at=lambda idx: z3.If(toreal(c.at(idx)) != 0, el(x, idx), el(y, idx)))
+
+
+def full_like(ex, st, a, k):
+    from .tensors import toreal
+    v = toreal(a[1])
+    return a[0].with_(at=lambda idx: v)
+
+
 def as_np(ex, st, a, k):
     x = a[0]
     if isinstance(x, ND):
@@ -453,9 +555,10 @@ def expand_dims(ex, st, a, k):
     return a[0].unsqueeze(a[1] if len(a) > 1 else k["axis"])
 
 
-LIB = {"torch.stack": stack, "torch.cat": cat, "numpy.array": as_np, "torch.Tensor": as_torch, "torch.from_numpy": as_torch,
+LIB = {"torch.stack": stack, "torch.cat": cat_any, "torch.unbind": unbind, "torch.split": split, "torch.where": where, "torch.full_like": full_like,
+       "torch.as_tensor": as_torch, "numpy.array": as_np, "torch.Tensor": as_torch, "torch.from_numpy": as_torch,
        "torch.zeros_like": zeros_like, "numpy.expand_dims": expand_dims}
-DOC = ("exact N-d tensor model (contracts/ndt.py): torch.stack, torch.cat(dim=0), reshape/view incl. -1, transpose, squeeze, unsqueeze/expand_dims, "
+DOC = ("exact N-d tensor model (contracts/ndt.py): torch.stack, torch.cat, unbind, split, where, full_like, sum over a concrete dimension, reshape/view incl. -1, transpose, squeeze, unsqueeze/expand_dims, "
        "row indexing and row assignment, element-wise arithmetic with scalars/same-shape tensors, zeros_like - all with row-major index maps; "
        "np.array / torch.Tensor / from_numpy / dtype and device moves keep values")
 
